@@ -10,23 +10,36 @@ package reservation
 import (
 	"context"
 	"encoding/json"
+	"flag"
 	"fmt"
+	"io"
 	"math/rand"
 	"sort"
 	"strings"
 	"testing"
+	"time"
 
 	corev1 "k8s.io/api/core/v1"
 	"k8s.io/apimachinery/pkg/api/resource"
 	metav1 "k8s.io/apimachinery/pkg/apis/meta/v1"
 	"k8s.io/apimachinery/pkg/types"
 	"k8s.io/apimachinery/pkg/labels"
+	kubeinformers "k8s.io/client-go/informers"
+	kubefake "k8s.io/client-go/kubernetes/fake"
+	clientcache "k8s.io/client-go/tools/cache"
+	"k8s.io/klog/v2"
 	fwktype "k8s.io/kube-scheduler/framework"
+	"k8s.io/kubernetes/pkg/scheduler"
 	"k8s.io/kubernetes/pkg/scheduler/framework"
+	"k8s.io/kubernetes/pkg/scheduler/profile"
 
 	apiext "github.com/koordinator-sh/koordinator/apis/extension"
 	schedulingv1alpha1 "github.com/koordinator-sh/koordinator/apis/scheduling/v1alpha1"
+	koordinformers "github.com/koordinator-sh/koordinator/pkg/client/informers/externalversions"
+	koordschedinformers "github.com/koordinator-sh/koordinator/pkg/client/informers/externalversions/scheduling"
+	koordschedv1alpha1informers "github.com/koordinator-sh/koordinator/pkg/client/informers/externalversions/scheduling/v1alpha1"
 	"github.com/koordinator-sh/koordinator/pkg/scheduler/frameworkext"
+	"github.com/koordinator-sh/koordinator/pkg/scheduler/frameworkext/eventhandlers"
 	reservationutil "github.com/koordinator-sh/koordinator/pkg/util/reservation"
 )
 
@@ -197,6 +210,7 @@ func vtC05Reservation(s vtC05Spec) *schedulingv1alpha1.Reservation {
 				}}},
 			},
 			AllocatePolicy: vtC05Policies[int(s.policy)%len(vtC05Policies)],
+			TTL:            &metav1.Duration{Duration: 24 * time.Hour}, // ValidateReservation (scheduler-wide handler) wants an expiration
 		},
 		Status: schedulingv1alpha1.ReservationStatus{
 			Phase:       vtC05Phases[int(s.phase)%len(vtC05Phases)],
@@ -352,6 +366,84 @@ func (l *vtC05Lister) Get(name string) (*schedulingv1alpha1.Reservation, error) 
 		return nil, fmt.Errorf("reservation %q not found", name)
 	}
 	return l.r, nil
+}
+
+// ---- the scheduler-wide reservation handler (frameworkext/eventhandlers), registered the way
+// cmd/koord-scheduler does (eventhandlers.AddScheduleEventHandler) on an informer factory that only
+// records the handler registered on the Reservation informer.
+
+type vtC05CaptureInformer struct {
+	clientcache.SharedIndexInformer
+	handlers []clientcache.ResourceEventHandler
+}
+
+func (c *vtC05CaptureInformer) AddEventHandler(h clientcache.ResourceEventHandler) (clientcache.ResourceEventHandlerRegistration, error) {
+	c.handlers = append(c.handlers, h)
+	return nil, nil
+}
+
+type vtC05CaptureRsvInformer struct {
+	koordschedv1alpha1informers.ReservationInformer
+	inf *vtC05CaptureInformer
+}
+
+func (c *vtC05CaptureRsvInformer) Informer() clientcache.SharedIndexInformer { return c.inf }
+
+type vtC05CaptureV1alpha1 struct {
+	koordschedv1alpha1informers.Interface
+	inf *vtC05CaptureInformer
+}
+
+func (c *vtC05CaptureV1alpha1) Reservations() koordschedv1alpha1informers.ReservationInformer {
+	return &vtC05CaptureRsvInformer{inf: c.inf}
+}
+
+type vtC05CaptureScheduling struct {
+	koordschedinformers.Interface
+	inf *vtC05CaptureInformer
+}
+
+func (c *vtC05CaptureScheduling) V1alpha1() koordschedv1alpha1informers.Interface {
+	return &vtC05CaptureV1alpha1{inf: c.inf}
+}
+
+type vtC05CaptureFactory struct {
+	koordinformers.SharedInformerFactory
+	inf *vtC05CaptureInformer
+}
+
+func (c *vtC05CaptureFactory) Scheduling() koordschedinformers.Interface {
+	return &vtC05CaptureScheduling{inf: c.inf}
+}
+
+var vtC05KubeInformers kubeinformers.SharedInformerFactory
+
+// vtC05GlobalHandler returns the handler the scheduler registers on the Reservation informer, bound to a
+// fresh fake scheduler (scheduler cache + queue); the reservation cache it deletes from is the one
+// registered in frameworkext (SetReservationCache), as in production.
+func vtC05GlobalHandler() clientcache.ResourceEventHandler {
+	inf := &vtC05CaptureInformer{}
+	sched := &scheduler.Scheduler{Profiles: profile.Map{}}
+	eventhandlers.AddScheduleEventHandler(sched, frameworkext.NewFakeScheduler(), vtC05KubeInformers, &vtC05CaptureFactory{inf: inf}, nil)
+	if len(inf.handlers) != 1 {
+		panic(fmt.Sprintf("expected one handler on the reservation informer, got %d", len(inf.handlers)))
+	}
+	return inf.handlers[0]
+}
+
+// one informer event, delivered to both listeners: who = 0 plugin handler then scheduler-wide handler,
+// 1 the other way round, 2 the scheduler-wide handler alone
+func vtC05Deliver(who int64, plugin, global func()) {
+	switch who {
+	case 1:
+		global()
+		plugin()
+	case 2:
+		global()
+	default:
+		plugin()
+		global()
+	}
 }
 
 var vtC05Plugin *Plugin // only used for FilterNominateReservation (the allocate-once gate)
@@ -530,6 +622,10 @@ func vtC05HistoryExec(in []int64) []int64 {
 	// the package's own test plugin (it is the framework's reservation nominator), run on the harness cache
 	pl := vtC05Plugin
 	pl.reservationCache, pl.nominator, pl.rLister = c, nm, lister
+	// the scheduler-wide handler finds the reservation cache of every profile in the frameworkext registry
+	frameworkext.ClearReservationCache()
+	frameworkext.SetReservationCache(c, "koord-scheduler")
+	gh := vtC05GlobalHandler()
 	nops := int(rd.next())
 	var obs []int64
 	for i := 0; i < nops; i++ {
@@ -596,6 +692,23 @@ func vtC05HistoryExec(in []int64) []int64 {
 			req := rd.res()
 			node, target := rd.next(), rd.next()
 			code = vtC05Schedule(pl, c, nm, pu, req, node, target)
+		case 14: // informer Add event
+			r := vtC05Reservation(rd.spec())
+			who := rd.next()
+			vtC05Deliver(who, func() { rh.OnAdd(r, false) }, func() { gh.OnAdd(r, false) })
+		case 15: // informer Update event (old, new)
+			o := vtC05Reservation(rd.spec())
+			r := vtC05Reservation(rd.spec())
+			who := rd.next()
+			vtC05Deliver(who, func() { rh.OnUpdate(o, r) }, func() { gh.OnUpdate(o, r) })
+		case 16: // informer Delete event, the object or a DeletedFinalStateUnknown tombstone
+			r := vtC05Reservation(rd.spec())
+			who, tomb := rd.next(), rd.next()
+			var obj interface{} = r
+			if tomb != 0 {
+				obj = clientcache.DeletedFinalStateUnknown{Key: r.Name, Obj: r}
+			}
+			vtC05Deliver(who, func() { rh.OnDelete(obj) }, func() { gh.OnDelete(obj) })
 		default:
 			rd.pos = len(rd.in)
 		}
@@ -611,6 +724,7 @@ type vtC05GenState struct {
 	style   string
 	nodeOf  map[int64]int64               // reservation uid -> node
 	lastRsv map[int64]vtC05Spec           // last spec sent per reservation
+	lastInf map[int64][]int64             // last reservation object delivered by an event (wire form)
 	podReq  map[int64][]int64             // pod uid -> request (flat k v ...)
 	podRsv  map[int64]int64               // pod uid -> reservation it was last attached to
 	podNode map[int64]int64
@@ -779,8 +893,8 @@ func (g *vtC05GenState) pev(pu int64, forceRsv int64) []int64 {
 }
 
 func vtC05HistoryGen(r *rand.Rand, i int) (string, []int64) {
-	style := []string{"small", "small", "small", "large", "grow", "unstable", "once", "operating", "operating", "reserve", "reserve", "sched", "sched", "sched"}[r.Intn(14)]
-	g := &vtC05GenState{r: r, style: style, nodeOf: map[int64]int64{}, lastRsv: map[int64]vtC05Spec{},
+	style := []string{"small", "small", "small", "large", "grow", "unstable", "once", "operating", "operating", "reserve", "reserve", "sched", "sched", "sched", "informer", "informer", "informer"}[r.Intn(17)]
+	g := &vtC05GenState{r: r, style: style, nodeOf: map[int64]int64{}, lastRsv: map[int64]vtC05Spec{}, lastInf: map[int64][]int64{},
 		podReq: map[int64][]int64{}, podRsv: map[int64]int64{}, podNode: map[int64]int64{}, opPod: map[int64]bool{}, reserved: map[int64]bool{}}
 	nops := 2 + r.Intn(12)
 	in := []int64{int64(nops)}
@@ -810,17 +924,77 @@ func vtC05HistoryGen(r *rand.Rand, i int) (string, []int64) {
 				ru = 100 + 1 + r.Int63n(5) // assume / forget against an operating pod
 			}
 		}
+		// reservation events: through the plugin's handler alone, or the way the informer delivers them
+		// (plugin handler and scheduler-wide handler, in either order)
+		inf := style == "informer" || r.Intn(2) == 0
+		who := func() int64 {
+			switch x := r.Intn(20); {
+			case x < 12:
+				return 0
+			case x < 17:
+				return 1
+			}
+			return 2
+		}
+		if style == "informer" {
+			if j == 0 {
+				k = 0
+			} else if k >= 14 && k < 20 && r.Intn(2) == 0 {
+				k = 2 + r.Intn(5) // more reservation updates / deletes than pod events
+			}
+		}
 		switch {
 		case k < 2:
 			_, known := g.nodeOf[ru]
-			in = append(in, 1)
-			in = append(in, g.spec(ru, !known)...)
+			sp := g.spec(ru, !known)
+			if style == "informer" && r.Intn(4) != 0 {
+				sp[2] = 1 // available
+			}
+			if inf {
+				in = append(in, 14)
+				in = append(in, sp...)
+				in = append(in, who())
+			} else {
+				in = append(in, 1)
+				in = append(in, sp...)
+			}
+			g.lastInf[ru] = sp
 		case k < 6:
-			in = append(in, 2)
-			in = append(in, g.spec(ru, false)...)
+			old, ok := g.lastInf[ru]
+			if !ok || r.Intn(8) == 0 {
+				old = g.spec(ru, false) // no previous object known / a stale or unrelated old object
+			}
+			sp := g.spec(ru, false)
+			if style == "informer" && r.Intn(3) == 0 {
+				sp[2] = int64(2 + r.Intn(2)) // Succeeded / Failed: the transition that removes the reservation
+			}
+			if inf {
+				in = append(in, 15)
+				in = append(in, old...)
+				in = append(in, sp...)
+				in = append(in, who())
+			} else {
+				in = append(in, 2)
+				in = append(in, sp...)
+			}
+			g.lastInf[ru] = sp
 		case k < 7:
-			in = append(in, 3)
-			in = append(in, g.spec(ru, false)...)
+			sp, ok := g.lastInf[ru]
+			if !ok || r.Intn(3) == 0 {
+				sp = g.spec(ru, false)
+			}
+			if inf {
+				in = append(in, 16)
+				in = append(in, sp...)
+				in = append(in, who(), vtB(r.Intn(2) == 0))
+				if sp[1] != 0 {
+					delete(g.nodeOf, ru)
+				}
+				delete(g.lastInf, ru)
+			} else {
+				in = append(in, 3)
+				in = append(in, sp...)
+			}
 		case k < 8:
 			in = append(in, 4)
 			in = append(in, g.spec(ru, false)...)
@@ -831,6 +1005,7 @@ func vtC05HistoryGen(r *rand.Rand, i int) (string, []int64) {
 			}
 			in = append(in, 5, ru, node)
 			delete(g.nodeOf, ru)
+			delete(g.lastInf, ru)
 		case k < 13:
 			in = append(in, 6, ru, pu)
 			in = append(in, g.req(pu)...)
@@ -893,6 +1068,7 @@ func vtC05HistoryGen(r *rand.Rand, i int) (string, []int64) {
 				in = append(in, sp...)
 				in = append(in, node, vtB(r.Intn(5) != 0))
 				delete(g.nodeOf, ru)
+				delete(g.lastInf, ru)
 				g.reserved[ru] = false
 			} else {
 				in = append(in, 11)
@@ -917,6 +1093,14 @@ func TestVerifC05History(t *testing.T) {
 		return &corev1.Node{ObjectMeta: metav1.ObjectMeta{Name: name}, Status: corev1.NodeStatus{Allocatable: alloc, Capacity: alloc}}
 	}
 	vtC05Nodes = []*corev1.Node{bigNode("n01"), bigNode("n02")}
+	// the scheduler-wide handler logs every skipped / failed step at error level
+	fs := flag.NewFlagSet("klog", flag.ContinueOnError)
+	klog.InitFlags(fs)
+	_ = fs.Set("logtostderr", "false")
+	_ = fs.Set("alsologtostderr", "false")
+	_ = fs.Set("stderrthreshold", "FATAL")
+	klog.SetOutput(io.Discard)
+	vtC05KubeInformers = kubeinformers.NewSharedInformerFactory(kubefake.NewSimpleClientset(), 0)
 	suit := newPluginTestSuitWith(t, nil, vtC05Nodes)
 	p, err := suit.pluginFactory()
 	if err != nil {
